@@ -35,6 +35,21 @@ func loadSpecs(p *Prog) (*Specs, error) {
 			return nil, err
 		}
 	}
+	// package aliases declared by contract files: directory -> import path
+	for _, pk := range p.pkgs {
+		if len(pk.GoFiles) == 0 {
+			continue
+		}
+		if a, ok := dirAliases[filepath.Dir(pk.GoFiles[0])]; ok {
+			pkgAliases[pk.PkgPath] = a
+		}
+	}
+	for _, sp2 := range p.ssaPkgs {
+		if sp2 != nil {
+			p.byName[pkgKey(sp2.Pkg)] = sp2
+		}
+	}
+	p.byKey = nil
 	if err := sp.loadDir(filepath.Join(verifRoot(), "contracts", "assumed"), "*.spec"); err != nil {
 		return nil, err
 	}
